@@ -84,6 +84,16 @@ class ModelNode(renew.Mold):
         raise NotImplementedError("To be overridden in %s class." % self.__class__.__name__)
 
 
+def expression_symbols(expression):
+    """ Names an expression refers to (constants, enumerators). """
+    def sub_(x, y):
+        return x.replace(y, " ")
+
+    for symbol in six.reduce(sub_, "()+-*/<>|", str(expression)).split():
+        if not symbol[0].isdigit():
+            yield symbol
+
+
 class Constant(ModelNode):
     _str_pattern = "const {s.name} = {s.value!r};"
     __slots__ = ()
@@ -98,12 +108,7 @@ class Constant(ModelNode):
                 return None
 
     def dependencies(self):
-        def sub_(x, y):
-            return x.replace(y, " ")
-
-        for symbol in six.reduce(sub_, "()+-*/<>|", self.value).split():
-            if not symbol[0].isdigit():
-                yield symbol
+        return expression_symbols(self.value)
 
 
 class EnumMember(Constant):
@@ -212,6 +217,13 @@ class StructMember(Typedef):
     def __str__(self):
         return self.schema_repr()
 
+    def dependencies(self):
+        """ the member's type and whatever its array size names """
+        yield self.type_name
+        if self.size:
+            for symbol in expression_symbols(self.size):
+                yield symbol
+
     def schema_repr(self):
         if self.optional:
             return '{s.type_name}* {s.name};'.format(s=self)
@@ -235,6 +247,12 @@ class UnionMember(Typedef):
     def __init__(self, name, type_name, discriminator, definition=None, docstring=None):
         super(UnionMember, self).__init__(name, type_name, definition, docstring)
         self.discriminator = discriminator
+
+    def dependencies(self):
+        """ the arm's type and whatever its discriminator names """
+        yield self.type_name
+        for symbol in expression_symbols(self.discriminator):
+            yield symbol
 
 
 """ Composite kinds """
